@@ -130,14 +130,16 @@ Section Proofs.
   Variable compiler : path -> SrcId -> comp_result Body.
   Variable builtin_names : list name.
   Variable frames_max : nat.
-  Variables chk grd : bool.      (* hit_checks_loading, builtins_guarded: everything up to `Inv` holds for both variants *)
+  Variables chk grd : bool.      (* hit_checks_loading, builtins_guarded: everything up to `Inv` holds for both variants;
+                                    loading_walks_chain is fixed to true: the variant `false` breaks the invariant, see the
+                                    witness cycle_through_two_fibers_refuted_shallow *)
 
-  Notation stepM := (step SrcId Body loader compiler builtin_names frames_max chk grd).
-  Notation runM := (run_events SrcId Body loader compiler builtin_names frames_max chk grd).
+  Notation stepM := (step SrcId Body loader compiler builtin_names frames_max chk grd true).
+  Notation runM := (run_events SrcId Body loader compiler builtin_names frames_max chk grd true).
   Notation raiseM := (raise Body).
   Notation callM := (call_closure Body frames_max).
   Notation loadrunM := (load_and_run SrcId Body loader compiler builtin_names frames_max grd).
-  Notation startM := (start_import SrcId Body loader compiler builtin_names frames_max chk grd).
+  Notation startM := (start_import SrcId Body loader compiler builtin_names frames_max chk grd true).
   Notation initB := (init_builtins builtin_names).
 
   Definition body_mods (fs : list frame) : list nat := map f_mod (filter f_body fs).
@@ -299,7 +301,10 @@ Section Proofs.
   Lemma raise_fields st x :
     reg (fst (raiseM st x)) = reg st /\ heap (fst (raiseM st x)) = heap st /\ loads (fst (raiseM st x)) = loads st
     /\ ran (fst (raiseM st x)) = ran st /\ yielded (fst (raiseM st x)) = yielded st.
-  Proof. unfold raise. destruct (handlers st); simpl; auto. Qed.
+  Proof. unfold raise. destruct (handlers st); simpl; auto. destruct (Nat.ltb _ _); simpl; auto. Qed.
+
+  Lemma killed_inv st x : Inv st -> Inv (killed st x).
+  Proof. intros I. destruct I. constructor; simpl; auto; try discriminate. Qed.
 
   Lemma set_handlers_inv st hs : Inv st -> (forall h, In h hs -> 1 <= h) -> Inv (set_handlers st hs).
   Proof. intros I H. destruct I. constructor; simpl; auto. Qed.
@@ -307,8 +312,9 @@ Section Proofs.
   Lemma raise_inv st x : Inv st -> Inv (fst (raiseM st x)).
   Proof.
     intros I. unfold raise. destruct (handlers st) as [|h hs] eqn:Eh; simpl.
-    - destruct I. constructor; simpl; auto; try discriminate. intros h Hh; tauto.
-    - assert (Hk : 1 <= h) by (apply (i_hand _ I); rewrite Eh; left; auto).
+    - apply killed_inv; auto.
+    - destruct (Nat.ltb (base_len st) h); simpl; [|apply killed_inv; auto].
+      assert (Hk : 1 <= h) by (apply (i_hand _ I); rewrite Eh; left; auto).
       destruct (keep_bottom_suffix _ h (frames st)) as [pre Epre].
       pose proof (keep_bottom_nonempty _ _ _ Hk (i_fr_ne _ I)) as Hne.
       assert (I' : Inv (set_handlers st hs)).
@@ -317,7 +323,7 @@ Section Proofs.
   Qed.
 
   Lemma raise_outcome st x : snd (raiseM st x) = OCaught x \/ snd (raiseM st x) = ODead x.
-  Proof. unfold raise. destruct (handlers st); simpl; auto. Qed.
+  Proof. unfold raise. destruct (handlers st); simpl; auto. destruct (Nat.ltb _ _); simpl; auto. Qed.
 
   (* ---- logs ---- *)
   Lemma log_yield_inv st p id :
@@ -331,10 +337,10 @@ Section Proofs.
   Proof. intros I. destruct I. constructor; simpl; auto. Qed.
 
   (* ---- calls ---- *)
-  Lemma push_frame_inv st m b :
+  Lemma push_frame_inv st m b bs :
     Inv st -> m < List.length (heap st) ->
     (b = true -> registered st m /\ m_imported (getmod st m) = false /\ is_loading st m = false) ->
-    Inv (load_frame (set_frames st (mkframe m b :: frames st))).
+    Inv (load_frame (set_frames st (mkframe m b bs :: frames st))).
   Proof.
     intros I Hlt Hb. destruct I. constructor; simpl; auto; try discriminate.
     - intros g [<-|Hg]; auto.
@@ -369,7 +375,7 @@ Section Proofs.
 
   Lemma call_closure_none st m b st' :
     callM st m b = (st', ONone) ->
-    st' = load_frame (set_frames st (mkframe m b :: frames st)) /\ List.length (frames st) <> frames_max.
+    st' = load_frame (set_frames st (mkframe m b false :: frames st)) /\ fiber_depth (frames st) <> frames_max.
   Proof.
     unfold call_closure. destruct (Nat.eqb _ _) eqn:E.
     - intros H. destruct (raise_outcome st (XErr (mkerr KIndex [stack_overflow_msg]))) as [H'|H'];
@@ -497,7 +503,7 @@ Section Proofs.
 
   Lemma start_import_inv st p : Inv st -> Inv (fst (startM st p)).
   Proof.
-    intros I. unfold start_import.
+    intros I. unfold start_import; cbv beta iota delta [is_loading_seen].
     destruct (alookup (reg st) p) as [id|] eqn:Er; [|apply load_and_run_inv; auto].
     destruct (m_imported (getmod st id)) eqn:Ei.
     - simpl. apply log_yield_inv; auto.
@@ -514,7 +520,9 @@ Section Proofs.
     destruct (frames st) as [|f0 [|f r]] eqn:Ef; auto.
     assert (I1 : Inv (load_frame (set_frames st (f :: r)))).
     { apply (load_frame_sub_inv st [f0]); auto. discriminate. }
-    destruct (f_body f0) eqn:Eb; simpl; auto.
+    destruct (f_body f0) eqn:Eb; simpl.
+    2:{ destruct (f_base f0); simpl; auto. apply set_handlers_inv; auto.
+        intros h Hh. apply filter_In in Hh. destruct Hh as [Hh _]. apply (i_hand _ I). exact Hh. }
     assert (Hf0 : In f0 (frames st)) by (rewrite Ef; left; auto).
     destruct (i_loading _ I f0 Hf0 Eb) as [Hreg Himp].
     pose proof (i_fr_ok _ I f0 Hf0) as Hlt.
@@ -539,6 +547,8 @@ Section Proofs.
     - apply start_import_inv; auto.
     - destruct (Nat.ltb m (List.length (heap st))) eqn:E; [|exact I].
       apply call_closure_inv; auto. apply Nat.ltb_lt; auto. discriminate.
+    - destruct (Nat.ltb m (List.length (heap st))) eqn:E; [|exact I].
+      simpl. apply push_frame_inv; auto. apply Nat.ltb_lt; auto. discriminate.
     - apply raise_inv; auto.
     - apply set_handlers_inv; auto. intros h [<-|Hh]; [|apply (i_hand _ I); auto].
       pose proof (i_fr_ne _ I). destruct (frames st); [congruence|simpl; lia].
@@ -593,10 +603,11 @@ Section Proofs.
   Proof. unfold attrs_of, getmod. now rewrite raise_heap. Qed.
 
   Lemma raise_active st x h hs :
-    handlers st = h :: hs -> 1 <= h -> frames st <> [] ->
+    handlers st = h :: hs -> 1 <= h -> frames st <> [] -> snd (raiseM st x) = OCaught x ->
     exists f, In f (frames st) /\ active (fst (raiseM st x)) = f_mod f.
   Proof.
-    intros Eh Hk Hne. unfold raise. rewrite Eh. simpl. unfold top_mod. simpl.
+    intros Eh Hk Hne. unfold raise. rewrite Eh. destruct (Nat.ltb (base_len st) h); [|simpl; discriminate].
+    intros _. simpl. unfold top_mod. simpl.
     pose proof (keep_bottom_nonempty _ _ _ Hk Hne) as Hk'.
     destruct (keep_bottom h (frames st)) as [|f r] eqn:Ek; [congruence|].
     exists f. split; auto. apply (keep_bottom_incl _ h). rewrite Ek. left; auto.
@@ -703,7 +714,7 @@ Section Proofs.
     absent_or_failed st p /\ id = List.length (heap st) /\ ran st' = id :: ran st /\ loads st' = p :: loads st
     /\ alookup (reg st') p = Some id /\ active st' = id.
   Proof.
-    intros Hd. unfold step. rewrite Hd. unfold start_import.
+    intros Hd. unfold step. rewrite Hd. unfold start_import; cbv beta iota delta [is_loading_seen].
     assert (Hlr : forall st0, alookup (reg st0) p = None -> heap st0 = heap st -> ran st0 = ran st -> loads st0 = loads st ->
                   loadrunM st0 p = (st', OEntered id b) ->
                   id = List.length (heap st) /\ ran st' = id :: ran st /\ loads st' = p :: loads st
@@ -731,7 +742,7 @@ Section Proofs.
   Proof.
     unfold step. destruct (dead st); [left; auto|].
     destruct e; simpl; try (left; reflexivity).
-    - unfold start_import. destruct (alookup (reg st) p) as [old|] eqn:Er.
+    - unfold start_import; cbv beta iota delta [is_loading_seen]. destruct (alookup (reg st) p) as [old|] eqn:Er.
       + destruct (m_imported (getmod st old)) eqn:Ei; [left; reflexivity|].
         destruct (negb chk || is_loading st old) eqn:El; [left; apply raise_loads|].
         apply orb_false_iff in El. destruct El as [Hc El]. apply negb_false_iff in Hc.
@@ -741,7 +752,8 @@ Section Proofs.
         apply (load_and_run_spec _ p Hn).
       + right. exists p. split; auto. split; [|left; auto]. apply (load_and_run_spec st p Er).
     - destruct (Nat.ltb _ _); [left; apply call_loads|left; auto].
-    - left. destruct (frames st) as [|f0 [|f r]]; auto. destruct (f_body f0); reflexivity.
+    - destruct (Nat.ltb _ _); left; reflexivity.
+    - left. destruct (frames st) as [|f0 [|f r]]; auto. destruct (f_body f0); [reflexivity|destruct (f_base f0); reflexivity].
     - left. apply raise_loads.
     - left. destruct (alookup _ x); [auto|apply raise_loads].
     - left. destruct (alookup _ x); [auto|apply raise_loads].
@@ -754,7 +766,7 @@ Section Proofs.
 
   Theorem settled_import_is_cached st p id :
     dead st = None -> settled st p id -> stepM st (EStartImport p) = (log_yield p id st, OModule id).
-  Proof. intros Hd [Hr Hi]. unfold step, start_import. rewrite Hd, Hr, Hi. reflexivity. Qed.
+  Proof. intros Hd [Hr Hi]. unfold step, start_import; cbv beta iota delta [is_loading_seen]. rewrite Hd, Hr, Hi. reflexivity. Qed.
 
   Lemma set_imported_mono st id j :
     m_imported (getmod st j) = true -> m_imported (getmod (set_imported st id) j) = true.
@@ -776,7 +788,7 @@ Section Proofs.
     { intros i f. split; [exact Hr|]. rewrite getmod_upd_attrs_imported. exact Hi. }
     unfold step. destruct (dead st); [split; auto|].
     destruct e; simpl; auto.
-    - unfold start_import. destruct (alookup (reg st) p0) as [old|] eqn:Er.
+    - unfold start_import; cbv beta iota delta [is_loading_seen]. destruct (alookup (reg st) p0) as [old|] eqn:Er.
       + destruct (m_imported (getmod st old)) eqn:Ei; [split; auto|].
         destruct (negb chk || is_loading st old); [apply Hraise; split; auto|].
         assert (Hne : p0 <> p) by (intros ->; rewrite Hr in Er; inversion Er; subst; congruence).
@@ -796,8 +808,9 @@ Section Proofs.
         * split; [rewrite H1; apply alookup_app_some; auto|].
           destruct (H3 id Hlt) as [_ H4]. rewrite H4. exact Hi.
     - destruct (Nat.ltb _ _); [|split; auto]. unfold settled, getmod. rewrite call_reg, call_heap. auto.
+    - destruct (Nat.ltb _ _); split; auto.
     - destruct (frames st) as [|f0 [|f r]]; try (split; auto; fail).
-      destruct (f_body f0); simpl; [|split; auto].
+      destruct (f_body f0); simpl; [|destruct (f_base f0); split; auto].
       split; [exact Hr|]. apply (set_imported_mono (load_frame (set_frames st (f :: r)))). exact Hi.
     - apply Hraise; split; auto.
     - split; auto.
@@ -817,38 +830,42 @@ Section Proofs.
   Theorem cycle_is_import_error st p id :
     dead st = None -> alookup (reg st) p = Some id -> m_imported (getmod st id) = false -> is_loading st id = true ->
     stepM st (EStartImport p) = raiseM st (XErr (mkerr KImport [cyc_msg p])).
-  Proof. intros Hd Hr Hi Hl. unfold step, start_import. rewrite Hd, Hr, Hi, Hl, orb_true_r. reflexivity. Qed.
+  Proof. intros Hd Hr Hi Hl. unfold step, start_import; cbv beta iota delta [is_loading_seen]. rewrite Hd, Hr, Hi, Hl, orb_true_r. reflexivity. Qed.
 
   (* ... a leftover of a failed import is removed and the module loaded afresh (the code since 367eb72) *)
   Theorem failed_import_is_retried st p old :
     chk = true -> dead st = None -> alookup (reg st) p = Some old -> m_imported (getmod st old) = false ->
     is_loading st old = false ->
     stepM st (EStartImport p) = loadrunM (set_reg st (aremove (reg st) p)) p.
-  Proof. intros Hc Hd Hr Hi Hl. unfold step, start_import. rewrite Hd, Hr, Hi, Hl, Hc. reflexivity. Qed.
+  Proof. intros Hc Hd Hr Hi Hl. unfold step, start_import; cbv beta iota delta [is_loading_seen]. rewrite Hd, Hr, Hi, Hl, Hc. reflexivity. Qed.
 
-  (* an exception is delivered to the innermost handler (catchable) or ends the run with that error *)
+  (* an exception is delivered to the innermost handler OF THE RUNNING FIBER (catchable), or ends the run with that
+     error (no handler, or only handlers of waiting fibers): never stuck *)
   Theorem raise_delivers st x :
-    (exists h hs, handlers st = h :: hs /\ snd (raiseM st x) = OCaught x /\ dead (fst (raiseM st x)) = dead st
+    (exists h hs, handlers st = h :: hs /\ base_len st < h /\ snd (raiseM st x) = OCaught x /\ dead (fst (raiseM st x)) = dead st
                   /\ handlers (fst (raiseM st x)) = hs
                   /\ List.length (frames (fst (raiseM st x))) <= h)
-    \/ (handlers st = [] /\ snd (raiseM st x) = ODead x /\ dead (fst (raiseM st x)) = Some x).
+    \/ ((handlers st = [] \/ exists h hs, handlers st = h :: hs /\ h <= base_len st)
+        /\ snd (raiseM st x) = ODead x /\ dead (fst (raiseM st x)) = Some x).
   Proof.
     unfold raise. destruct (handlers st) as [|h hs] eqn:Eh; [right; simpl; auto|].
-    left. exists h, hs. simpl. repeat split; auto.
-    unfold keep_bottom. rewrite skipn_length. lia.
+    destruct (Nat.ltb (base_len st) h) eqn:E.
+    - left. exists h, hs. simpl. apply Nat.ltb_lt in E. repeat split; auto.
+      unfold keep_bottom. rewrite skipn_length. lia.
+    - right. apply Nat.ltb_ge in E. simpl. split; auto. right. exists h, hs. auto.
   Qed.
 
   (* T4: a module that cannot be found / does not compile *)
   Theorem failed_load_is_import_error st p e :
     dead st = None -> alookup (reg st) p = None -> loader p = LoadErr e ->
     stepM st (EStartImport p) = raiseM (log_load p st) (XErr e).
-  Proof. intros Hd Hr Hl. unfold step, start_import, load_and_run. rewrite Hd, Hr, Hl. reflexivity. Qed.
+  Proof. intros Hd Hr Hl. unfold step, start_import, load_and_run; cbv beta iota delta [is_loading_seen]. rewrite Hd, Hr, Hl. reflexivity. Qed.
 
   Theorem failed_compile_is_import_error st p s msgs :
     dead st = None -> alookup (reg st) p = None -> loader p = LoadOk s -> compiler p s = CompErr msgs ->
     stepM st (EStartImport p)
     = raiseM (log_load p st) (XErr (mkerr KImport (comp_head :: map (append comp_indent) msgs))).
-  Proof. intros Hd Hr Hl Hc. unfold step, start_import, load_and_run. rewrite Hd, Hr, Hl, Hc. reflexivity. Qed.
+  Proof. intros Hd Hr Hl Hc. unfold step, start_import, load_and_run; cbv beta iota delta [is_loading_seen]. rewrite Hd, Hr, Hl, Hc. reflexivity. Qed.
 
   Theorem failed_import_registers_nothing st p :
     dead st = None ->
@@ -872,9 +889,9 @@ Section Proofs.
 
   (* T5 (one step) *)
   Theorem call_enters_defining_module st m :
-    dead st = None -> m < List.length (heap st) -> List.length (frames st) <> frames_max ->
+    dead st = None -> m < List.length (heap st) -> fiber_depth (frames st) <> frames_max ->
     let st' := fst (stepM st (ECall m)) in
-    frames st' = mkframe m false :: frames st /\ active st' = m /\ top_mod st' = m.
+    frames st' = mkframe m false false :: frames st /\ active st' = m /\ top_mod st' = m.
   Proof.
     intros Hd Hlt Hne st'. unfold st', step. rewrite Hd.
     apply Nat.ltb_lt in Hlt. rewrite Hlt. unfold call_closure.
@@ -884,7 +901,17 @@ Section Proofs.
   Theorem return_restores_caller_module st f0 f r :
     dead st = None -> frames st = f0 :: f :: r ->
     let st' := fst (stepM st EReturn) in frames st' = f :: r /\ active st' = f_mod f.
-  Proof. intros Hd Hf st'. unfold st', step. rewrite Hd, Hf. destruct (f_body f0); simpl; auto. Qed.
+  Proof. intros Hd Hf st'. unfold st', step. rewrite Hd, Hf. destruct (f_body f0); simpl; auto. destruct (f_base f0); simpl; auto. Qed.
+
+  (* a new fiber starts in the module of its closure; the chain below is untouched *)
+  Theorem fiber_call_enters_module st m :
+    dead st = None -> m < List.length (heap st) ->
+    let st' := fst (stepM st (EFiberCall m)) in
+    frames st' = mkframe m false true :: frames st /\ active st' = m /\ fiber_depth (frames st') = 1
+    /\ forall id, is_loading st' id = is_loading st id.
+  Proof.
+    intros Hd Hlt st'. unfold st', step. rewrite Hd. apply Nat.ltb_lt in Hlt. rewrite Hlt. simpl. auto.
+  Qed.
 
   Theorem global_read_is_local st x :
     dead st = None -> active st = top_mod st ->
@@ -915,7 +942,7 @@ Section Proofs.
     match e with
     | ESetGlobal _ _ | EDefineGlobal _ _ => active st <> q
     | ESetAttr m _ _ => m <> q
-    | EStartImport _ => grd = true \/ List.length (frames st) <> frames_max
+    | EStartImport _ => grd = true \/ fiber_depth (frames st) <> frames_max
     | _ => True
     end ->
     attrs_of (fst (stepM st e)) q = attrs_of st q.
@@ -942,7 +969,7 @@ Section Proofs.
           rewrite Hact, Nat.eqb_refl, orb_true_r. unfold init_builtins.
           rewrite attrs_upd_attrs_other by lia. exact H4.
         - (* frame limit, handled *)
-          unfold call_closure in Ec. destruct (Nat.eqb (List.length (frames st2)) frames_max) eqn:El; [|inversion Ec].
+          unfold call_closure in Ec. destruct (Nat.eqb (fiber_depth (frames st2)) frames_max) eqn:El; [|inversion Ec].
           destruct He as [Hg|Hne].
           + rewrite Hg. simpl.
             assert (Hact : active st4 <> id).
@@ -950,12 +977,15 @@ Section Proofs.
               - unfold raise in Ec. rewrite Eh in Ec. inversion Ec.
               - assert (Hk : 1 <= h).
                 { apply (i_hand _ I0). unfold st2 in Eh; simpl in Eh. rewrite Eh. left; auto. }
-                destruct (raise_active st2 (XErr (mkerr KIndex [stack_overflow_msg])) h hs Eh Hk (i_fr_ne _ I0)) as (f & Hf1 & Hf2).
+                assert (Hoc : snd (raiseM st2 (XErr (mkerr KIndex [stack_overflow_msg]))) = OCaught x) by (rewrite Ec; reflexivity).
+                assert (Hoc' : snd (raiseM st2 (XErr (mkerr KIndex [stack_overflow_msg]))) = OCaught (XErr (mkerr KIndex [stack_overflow_msg]))).
+                { destruct (raise_outcome st2 (XErr (mkerr KIndex [stack_overflow_msg]))) as [H|H]; [exact H|rewrite H in Hoc; discriminate]. }
+                destruct (raise_active st2 (XErr (mkerr KIndex [stack_overflow_msg])) h hs Eh Hk (i_fr_ne _ I0) Hoc') as (f & Hf1 & Hf2).
                 rewrite Ec in Hf2. simpl in Hf2. rewrite Hf2.
                 pose proof (i_fr_ok _ I0 f Hf1) as Hlt. rewrite Hh in Hlt. lia. }
             apply Nat.eqb_neq in Hact. rewrite Hact. exact H4.
           + exfalso. apply Hne. apply Nat.eqb_eq in El. unfold st2 in El; simpl in El. rewrite Hf in El. exact El. }
-      unfold start_import. destruct (alookup (reg st) p) as [old|] eqn:Er; [|apply Hlr; auto].
+      unfold start_import; cbv beta iota delta [is_loading_seen]. destruct (alookup (reg st) p) as [old|] eqn:Er; [|apply Hlr; auto].
       destruct (m_imported (getmod st old)) eqn:Ei; [reflexivity|].
       destruct (negb chk || is_loading st old) eqn:El; [apply attrs_raise|].
       apply orb_false_iff in El. destruct El as [_ El].
@@ -963,7 +993,8 @@ Section Proofs.
       + apply (unregister_inv st p old); auto.
       + simpl. rewrite alookup_aremove, String.eqb_refl. reflexivity.
     - destruct (Nat.ltb _ _); auto. unfold attrs_of, getmod. now rewrite call_heap.
-    - destruct (frames st) as [|f0 [|f r]]; auto. destruct (f_body f0); simpl; auto.
+    - destruct (Nat.ltb _ _); auto.
+    - destruct (frames st) as [|f0 [|f r]]; auto. destruct (f_body f0); simpl; [|destruct (f_base f0); auto].
       change (attrs_of (set_imported (load_frame (set_frames st (f :: r))) (f_mod f0)) q = attrs_of st q).
       rewrite attrs_set_imported. reflexivity.
     - apply attrs_raise.
@@ -986,7 +1017,7 @@ Section Proofs.
   (* a fresh module starts with exactly the names init_built_in_globals defines *)
   Theorem fresh_module_has_only_builtins st p s b :
     dead st = None -> alookup (reg st) p = None -> loader p = LoadOk s -> compiler p s = CompOk b ->
-    List.length (frames st) <> frames_max ->
+    fiber_depth (frames st) <> frames_max ->
     let st' := fst (stepM st (EStartImport p)) in
     snd (stepM st (EStartImport p)) = OEntered (List.length (heap st)) b
     /\ active st' = List.length (heap st)
@@ -997,8 +1028,8 @@ Section Proofs.
     set (id := List.length (heap (log_load p st))).
     set (st2 := created (log_load p st) p).
     unfold call_closure. apply Nat.eqb_neq in Hne.
-    change (List.length (frames st2)) with (List.length (frames st)). rewrite Hne.
-    cbn [fst snd]. change (active (log_ran id (load_frame (set_frames st2 (mkframe id true :: frames st2))))) with id.
+    change (fiber_depth (frames st2)) with (fiber_depth (frames st)). rewrite Hne.
+    cbn [fst snd]. change (active (log_ran id (load_frame (set_frames st2 (mkframe id true false :: frames st2))))) with id.
     rewrite Nat.eqb_refl, orb_true_r.
     split; [reflexivity|]. split; [reflexivity|].
     intros c Hc'. unfold init_builtins.
@@ -1113,10 +1144,12 @@ Definition w_loader (p : path) : load_result unit :=
 Definition w_compiler (p : path) (_ : unit) : comp_result unit :=
   if String.eqb p "bad" then CompErr ["oops"] else CompOk tt.
 Definition w_builtins : list name := ["print"; "Vec"].
-Definition w_step := step unit unit w_loader w_compiler w_builtins 3 true true.
-Definition w_run := run_events unit unit w_loader w_compiler w_builtins 3 true true.
-Definition w_step_old := step unit unit w_loader w_compiler w_builtins 3 false false.
-Definition w_run_old := run_events unit unit w_loader w_compiler w_builtins 3 false false.
+Definition w_step := step unit unit w_loader w_compiler w_builtins 3 true true true.
+Definition w_run := run_events unit unit w_loader w_compiler w_builtins 3 true true true.
+Definition w_step_old := step unit unit w_loader w_compiler w_builtins 3 false false true.
+Definition w_step_shallow := step unit unit w_loader w_compiler w_builtins 3 true true false.
+Definition w_run_shallow := run_events unit unit w_loader w_compiler w_builtins 3 true true false.
+Definition w_run_old := run_events unit unit w_loader w_compiler w_builtins 3 false false true.
 Definition w_init := init_state (builtin_attrs ["print"; "Vec"; "RuntimeError"]).
 
 Lemma builtin_attrs_keys l : akeys (builtin_attrs l) = l.
@@ -1140,7 +1173,7 @@ Qed.
    started module sees all of them *)
 Theorem startup_names_in_every_module SrcId Body loader compiler (B C : list name) fm chk grd evs id b :
   filter (fun c => negb (existsb (String.eqb c) B)) C = [] ->
-  let st := run_events SrcId Body loader compiler B fm chk grd (init_state (builtin_attrs (B ++ C))) evs in
+  let st := run_events SrcId Body loader compiler B fm chk grd true (init_state (builtin_attrs (B ++ C))) evs in
   id = 0 \/ In id (ran st) -> In b (B ++ C) -> exists v, alookup (attrs_of st id) b = Some v.
 Proof.
   intros H st Hid Hb.
@@ -1189,7 +1222,7 @@ Proof. vm_compute. repeat split; reflexivity. Qed.
    the failed object is no longer registered *)
 Theorem reimport_after_failed_body_reloads :
   exists evs, let st := w_run w_init evs in
-    frames st = [mkframe 0 true] /\ ran st = [1] /\ alookup (reg st) "m" = Some 1 /\ is_loading st 1 = false
+    frames st = [mkframe 0 true true] /\ ran st = [1] /\ alookup (reg st) "m" = Some 1 /\ is_loading st 1 = false
     /\ snd (w_step st (EStartImport "m")) = OEntered 2 tt
     /\ ran (fst (w_step st (EStartImport "m"))) = [2; 1] /\ loads (fst (w_step st (EStartImport "m"))) = ["m"; "m"]
     /\ alookup (reg (fst (w_step st (EStartImport "m")))) "m" = Some 2.
@@ -1215,7 +1248,7 @@ Qed.
    threw is not being loaded any more, yet every later import reports a cycle *)
 Theorem reimport_after_failed_body_reports_cycle_refuted_old :
   exists evs, let st := w_run_old w_init evs in
-    frames st = [mkframe 0 true] /\ ran st = [1] /\ is_loading st 1 = false
+    frames st = [mkframe 0 true true] /\ ran st = [1] /\ is_loading st 1 = false
     /\ snd (w_step_old st (EStartImport "m")) = OCaught (XErr (mkerr KImport [cyc_msg "m"])).
 Proof.
   exists [EPushHandler; EStartImport "m"; EThrow (VStr "boom"); EPushHandler].
@@ -1235,8 +1268,42 @@ Proof.
   vm_compute. repeat split; reflexivity.
 Qed.
 
+(* a cycle that closes through nested fibers: the body of "m" (still loading) runs a fiber that runs a fiber that
+   imports "m" again.  The whole caller chain is examined: a cycle ImportError, delivered to a handler inside the
+   innermost fiber; nothing is loaded or run *)
+Theorem cycle_through_fibers_is_import_error :
+  let st := w_run w_init [EStartImport "m"; EFiberCall 1; EFiberCall 1; EPushHandler] in
+  fiber_depth (frames st) = 1 /\ List.length (frames st) = 4 /\ is_loading st 1 = true
+  /\ snd (w_step st (EStartImport "m")) = OCaught (XErr (mkerr KImport [cyc_msg "m"]))
+  /\ ran (fst (w_step st (EStartImport "m"))) = [1] /\ loads (fst (w_step st (EStartImport "m"))) = ["m"].
+Proof. vm_compute. repeat split; reflexivity. Qed.
+
+(* an exception never crosses a fiber boundary: with a handler only in the WAITING fiber the run ends *)
+Theorem exception_does_not_cross_fibers :
+  let st := w_run w_init [EStartImport "m"; EPushHandler; EFiberCall 1] in
+  snd (w_step st (EStartImport "m")) = ODead (XErr (mkerr KImport [cyc_msg "m"])).
+Proof. vm_compute. reflexivity. Qed.
+
+(* the variant of is_loading_module that looks at the running fiber and its direct caller only
+   (loading_walks_chain = false): through ONE fiber the cycle is still found, through TWO it is taken for the leftover
+   of a failed import - the module is unregistered and its body started again while the first run is still on the
+   frame stack (two module objects for one path) *)
+Theorem cycle_through_two_fibers_refuted_shallow :
+  (let st := w_run_shallow w_init [EStartImport "m"; EFiberCall 1; EPushHandler] in
+   snd (w_step_shallow st (EStartImport "m")) = OCaught (XErr (mkerr KImport [cyc_msg "m"])))
+  /\ (let st := w_run_shallow w_init [EStartImport "m"; EFiberCall 1; EFiberCall 1; EPushHandler] in
+      is_loading st 1 = true
+      /\ snd (w_step_shallow st (EStartImport "m")) = OEntered 2 tt
+      /\ ran (fst (w_step_shallow st (EStartImport "m"))) = [2; 1]
+      /\ loads (fst (w_step_shallow st (EStartImport "m"))) = ["m"; "m"]
+      /\ alookup (reg (fst (w_step_shallow st (EStartImport "m")))) "m" = Some 2
+      /\ is_loading (fst (w_step_shallow st (EStartImport "m"))) 1 = true).
+Proof. vm_compute. repeat split; reflexivity. Qed.
+
 Print Assumptions reimport_after_failed_body_reloads.
 Print Assumptions import_at_frame_limit_is_clean.
+Print Assumptions cycle_through_fibers_is_import_error.
+Print Assumptions cycle_through_two_fibers_refuted_shallow.
 Print Assumptions import_at_frame_limit_refuted_old.
 Print Assumptions reimport_after_failed_body_reports_cycle_refuted_old.
 
@@ -1246,9 +1313,9 @@ Print Assumptions reimport_after_failed_body_reports_cycle_refuted_old.
    above ("over every event sequence") holds for every program of the mini-language, any fuel. *)
 Open Scope list_scope.
 
-Lemma run_events_app SrcId Body ld cp B fm chk grd st a b :
-  run_events SrcId Body ld cp B fm chk grd st (a ++ b)
-  = run_events SrcId Body ld cp B fm chk grd (run_events SrcId Body ld cp B fm chk grd st a) b.
+Lemma run_events_app SrcId Body ld cp B fm chk grd chain st a b :
+  run_events SrcId Body ld cp B fm chk grd chain st (a ++ b)
+  = run_events SrcId Body ld cp B fm chk grd chain (run_events SrcId Body ld cp B fm chk grd chain st a) b.
 Proof. revert st; induction a as [|e a IH]; simpl; intros st; auto. Qed.
 
 Section MechReach.
@@ -1260,7 +1327,7 @@ Section MechReach.
   Variable core : list name.
 
   Definition reach (st : state) : Prop :=
-    exists evs, st = run_events nat (list top) (prog_loader prog) (prog_compiler prog cm) B fm chk grd
+    exists evs, st = run_events nat (list top) (prog_loader prog) (prog_compiler prog cm) B fm chk grd true
                                 (init_state (main_attrs B core)) evs.
   Definition RX (x : xst) : Prop := reach (ms x).
 
@@ -1272,15 +1339,15 @@ Section MechReach.
   Definition sres_ok (r : sres) : Prop :=
     match r with SOk x _ | SUnw _ _ x | SDead _ x => RX x end.
 
-  Lemma reach_step st e : reach st -> reach (fst (mstep prog cm B fm chk grd st e)).
+  Lemma reach_step st e : reach st -> reach (fst (mstep prog cm B fm chk grd true st e)).
   Proof.
     intros [evs ->]. exists (evs ++ [e]). rewrite run_events_app. reflexivity.
   Qed.
 
-  Lemma do_step_ok x e : RX x -> sres_ok (do_step prog cm B fm chk grd x e).
+  Lemma do_step_ok x e : RX x -> sres_ok (do_step prog cm B fm chk grd true x e).
   Proof.
     intros H. unfold do_step. pose proof (reach_step (ms x) e H) as H'.
-    destruct (mstep prog cm B fm chk grd (ms x) e) as [s' o]. simpl in H'.
+    destruct (mstep prog cm B fm chk grd true (ms x) e) as [s' o]. simpl in H'.
     destruct o; simpl; auto. destruct (hids x); simpl; auto.
   Qed.
 
@@ -1288,17 +1355,17 @@ Section MechReach.
   Proof. intros Hr Hk. destruct r; simpl in *; auto. Qed.
 
   Lemma get_global_ok x nm k :
-    RX x -> (forall x' v, RX x' -> res_ok (k x' v)) -> res_ok (get_global prog cm B fm chk grd x nm k).
+    RX x -> (forall x' v, RX x' -> res_ok (k x' v)) -> res_ok (get_global prog cm B fm chk grd true x nm k).
   Proof.
     intros Hx Hk. unfold get_global. apply bind_s_ok; [apply do_step_ok; auto|].
     intros x' o Hx'. destruct o; simpl; auto.
   Qed.
 
   Lemma resolve_ok env x nm k :
-    RX x -> (forall x' v, RX x' -> res_ok (k x' v)) -> res_ok (resolve prog cm B fm chk grd env x nm k).
+    RX x -> (forall x' v, RX x' -> res_ok (k x' v)) -> res_ok (resolve prog cm B fm chk grd true env x nm k).
   Proof. intros Hx Hk. unfold resolve. destruct (lookup_local env nm); auto. apply get_global_ok; auto. Qed.
 
-  Lemma bind_alias_ok env x nm v : RX x -> res_ok (bind_alias prog cm B fm chk grd env x nm v).
+  Lemma bind_alias_ok env x nm v : RX x -> res_ok (bind_alias prog cm B fm chk grd true env x nm v).
   Proof.
     intros Hx. unfold bind_alias. destruct env; simpl; auto.
     apply bind_s_ok; [apply do_step_ok; auto|]. intros x' _ Hx'. exact Hx'.
@@ -1316,13 +1383,13 @@ Section MechReach.
   Arguments bind_alias : simpl never.
   Arguments note_main_only : simpl never.
 
-  Lemma run_task_ok : forall fuel tk x, RX x -> res_ok (run_task prog cm B fm chk grd fuel tk x).
+  Lemma run_task_ok : forall fuel tk x, RX x -> res_ok (run_task prog cm B fm chk grd true fuel tk x).
   Proof.
     induction fuel as [|fuel IH]; intros tk x Hx; simpl; [exact I|].
-    destruct tk as [l env|s env|env w|ts src].
+    destruct tk as [l env|s env|env w|k f env|ts src].
     - destruct l as [|s rest]; [exact Hx|].
       pose proof (IH (TkExec1 s env) x Hx) as H.
-      destruct (run_task prog cm B fm chk grd fuel (TkExec1 s env) x); simpl in *; auto.
+      destruct (run_task prog cm B fm chk grd true fuel (TkExec1 s env) x); simpl in *; auto.
     - destruct s.
       + apply get_global_ok; [assumption|]. intros x1 _ H1. exact H1.
       + apply get_global_ok; [assumption|]. intros x1 _ H1. apply get_global_ok; [assumption|]. intros x2 w H2. exact H2.
@@ -1330,7 +1397,7 @@ Section MechReach.
       + apply bind_s_ok; [apply do_step_ok; auto|]. intros x1 o H1. destruct o; simpl; auto.
         * apply bind_alias_ok; auto.
         * pose proof (IH (TkTops b (src_of_mod x1 id)) x1 H1) as Ht.
-          destruct (run_task prog cm B fm chk grd fuel (TkTops b (src_of_mod x1 id)) x1); simpl in *; auto.
+          destruct (run_task prog cm B fm chk grd true fuel (TkTops b (src_of_mod x1 id)) x1); simpl in *; auto.
           apply bind_s_ok; [apply do_step_ok; auto|]. intros x3 _ H3. apply bind_alias_ok; auto.
       + apply get_global_ok; [assumption|]. intros x1 _ H1. apply resolve_ok; [assumption|]. intros x2 w H2.
         destruct w; simpl; auto. apply bind_s_ok; [apply do_step_ok; auto|]. intros x3 o H3.
@@ -1344,10 +1411,11 @@ Section MechReach.
       + apply get_global_ok; [assumption|]. intros x1 _ H1.
         destruct k as [|[q|[q|q|]|]];
           repeat (first [apply get_global_ok; [auto using note_ok|]; intros | exact I | assumption | apply note_ok; assumption]).
+      + apply IH; auto.
       + apply bind_s_ok; [apply do_step_ok; auto|]. intros x1 _ H1.
-        match goal with |- res_ok (match run_task _ _ _ _ _ _ _ ?tk ?xx with _ => _ end) =>
-          assert (Hb : res_ok (run_task prog cm B fm chk grd fuel tk xx)) by (apply IH; exact H1);
-          destruct (run_task prog cm B fm chk grd fuel tk xx) as [env' x2|h e x2|e x2| |why]; simpl in *; auto
+        match goal with |- res_ok (match run_task _ _ _ _ _ _ _ _ ?tk ?xx with _ => _ end) =>
+          assert (Hb : res_ok (run_task prog cm B fm chk grd true fuel tk xx)) by (apply IH; exact H1);
+          destruct (run_task prog cm B fm chk grd true fuel tk xx) as [env' x2|h e x2|e x2| |why]; simpl in *; auto
         end.
         * apply bind_s_ok; [apply do_step_ok; auto|]. intros x3 _ H3. exact H3.
         * destruct (Nat.eqb h (nexth x)); simpl; auto.
@@ -1355,18 +1423,25 @@ Section MechReach.
           apply get_global_ok; [exact H4|]. intros x6 _ H6. apply get_global_ok; [assumption|]. intros x7 _ H7.
           apply get_global_ok; [assumption|]. intros x8 _ H8. exact H8.
       + pose proof (IH (TkExec body ([] :: env)) x Hx) as Hb.
-        destruct (run_task prog cm B fm chk grd fuel (TkExec body ([] :: env)) x); simpl in *; auto.
+        destruct (run_task prog cm B fm chk grd true fuel (TkExec body ([] :: env)) x); simpl in *; auto.
     - destruct w; simpl; auto.
       destruct (find_fn prog f) as [body|]; simpl; auto.
       apply bind_s_ok; [apply do_step_ok; auto|]. intros x1 _ H1.
       pose proof (IH (TkExec body [[]]) x1 H1) as Hb.
-      destruct (run_task prog cm B fm chk grd fuel (TkExec body [[]]) x1); simpl in *; auto.
+      destruct (run_task prog cm B fm chk grd true fuel (TkExec body [[]]) x1); simpl in *; auto.
       apply bind_s_ok; [apply do_step_ok; auto|]. intros x3 _ H3. exact H3.
+    - destruct k as [|k'].
+      + apply get_global_ok; [assumption|]. intros x1 w H1. apply IH; auto.
+      + apply get_global_ok; [assumption|]. intros x1 _ H1.
+        apply bind_s_ok; [apply do_step_ok; auto|]. intros x2 _ H2.
+        pose proof (IH (TkFiber k' f env) x2 H2) as Hb.
+        destruct (run_task prog cm B fm chk grd true fuel (TkFiber k' f env) x2); simpl in *; auto.
+        apply bind_s_ok; [apply do_step_ok; auto|]. intros x4 _ H4. exact H4.
     - destruct ts as [|t rest]; [exact Hx|].
       assert (Hr : res_ok (match t with
-                           | TStmt s => run_task prog cm B fm chk grd fuel (TkExec1 s []) x
-                           | TDef v n => bind_s (do_step prog cm B fm chk grd x (EDefineGlobal (var_name v) (VNum n))) (fun x1 _ => RNormal [] x1)
-                           | TFn f _ => bind_s (do_step prog cm B fm chk grd x (EDefineGlobal (fn_name f) (VFn (active (ms x)) (fn_key src f)))) (fun x1 _ => RNormal [] x1)
+                           | TStmt s => run_task prog cm B fm chk grd true fuel (TkExec1 s []) x
+                           | TDef v n => bind_s (do_step prog cm B fm chk grd true x (EDefineGlobal (var_name v) (VNum n))) (fun x1 _ => RNormal [] x1)
+                           | TFn f _ => bind_s (do_step prog cm B fm chk grd true x (EDefineGlobal (fn_name f) (VFn (active (ms x)) (fn_key src f)))) (fun x1 _ => RNormal [] x1)
                            end)).
       { destruct t.
         - apply IH; auto.
@@ -1376,20 +1451,20 @@ Section MechReach.
   Qed.
 
   Theorem mech_final_state_reachable fuel st :
-    final_state prog cm B fm chk grd fuel core = Some st -> reach st.
+    final_state prog cm B fm chk grd true fuel core = Some st -> reach st.
   Proof.
     unfold final_state. intros E.
-    assert (Hts : forall ts, res_ok (exec_tops prog cm B fm chk grd fuel ts 0 (mech_init B core))).
+    assert (Hts : forall ts, res_ok (exec_tops prog cm B fm chk grd true fuel ts 0 (mech_init B core))).
     { intros ts. apply run_task_ok. exists []; reflexivity. }
     destruct prog as [|[ts| |k] rest] eqn:Ep; try discriminate.
     specialize (Hts ts).
-    destruct (exec_tops (MOk ts :: rest) cm B fm chk grd fuel ts 0 (mech_init B core)); simpl in *; inversion E; subst; auto.
+    destruct (exec_tops (MOk ts :: rest) cm B fm chk grd true fuel ts 0 (mech_init B core)); simpl in *; inversion E; subst; auto.
   Qed.
 
   (* e.g.: whatever program runs, whatever the fuel, no module object's body is started twice, and the active
      module is the module of the running closure *)
   Corollary program_body_runs_at_most_once fuel st :
-    final_state prog cm B fm chk grd fuel core = Some st -> NoDup (ran st).
+    final_state prog cm B fm chk grd true fuel core = Some st -> NoDup (ran st).
   Proof.
     intros H. destruct (mech_final_state_reachable fuel st H) as [evs ->].
     apply body_runs_at_most_once. intros b Hb. unfold main_attrs.
@@ -1397,7 +1472,7 @@ Section MechReach.
   Qed.
 
   Corollary program_globals_isolated fuel st :
-    final_state prog cm B fm chk grd fuel core = Some st -> dead st = None -> active st = top_mod st.
+    final_state prog cm B fm chk grd true fuel core = Some st -> dead st = None -> active st = top_mod st.
   Proof.
     intros H. destruct (mech_final_state_reachable fuel st H) as [evs ->].
     apply globals_isolated. intros b Hb. unfold main_attrs. apply main_attrs_have_builtins; auto.
